@@ -142,6 +142,7 @@ def run(ctx):
     stripped_handshakes(ctx)
     fragments(ctx)
     after_rejection(ctx)
+    downgraded_context(ctx)
 
 
 def pick(alts, k):
@@ -309,6 +310,61 @@ def after_rejection(ctx):
                             return
 
 
+
+def downgraded_context(ctx):
+    """a handshake that COMPLETES but in which the peer (an impostor without the session key, clearing the NTLM SIGN / SEAL flags in its
+    challenge) negotiated neither integrity nor confidentiality: the security context then cannot seal.  The client must fail closed — the
+    request never goes out in clear, and a cleartext reply carrying a stub of the peer's choice is never returned (both clients)"""
+    from props import c15
+    from dpapi_ng import _rpc as r
+    from dpapi_ng._rpc import _request
+    alpha = c15.server_alphabet(ctx.rng)
+    evil = b"KEY MATERIAL CHOSEN BY THE ADVERSARY"
+    marker = b"GETKEY STUB THAT MUST BE SEALED"
+    clear = rpcfmt.finalize(_request.Response(header=r.PDUHeader(5, 0, r.PacketType.RESPONSE, r.PacketFlags(3), r.DataRep(), 0, 0, 1), sec_trailer=None,
+                                               alloc_hint=len(evil), context_id=0, cancel_count=0, stub_data=evil))
+    for sc in ([(b"c1", True)], [(b"c1", False), (b"c2", True)], [(b"c1", False), (b"c2", False), (b"", True)]):
+        for use_async in (False, True):
+            acks = ["ackAA1t"] * len([t for t, _ in sc if t]) or ["ackAA1t"]
+            replies = [alpha[a](i) for i, a in enumerate(acks)] + [clear]
+            prov = rpcfmt.ScriptedProvider(script=list(sc), no_protection=True)
+            got = {"stub": None, "wire": None, "n": None}
+
+            def drive_sync():
+                sock = rpcsim.FakeSocket(replies=list(replies))
+                c = rpcsim.sync_client(sock, prov)
+                c.bind(c15.contexts())
+                got["n"] = len(sock.sent)
+                try:
+                    got["stub"] = bytes(c.request(0, 0, marker).stub_data)
+                finally:
+                    got["wire"] = sock.sent[got["n"]] if len(sock.sent) > got["n"] else None
+
+            async def drive_async():
+                reader = asyncio.StreamReader()
+                pending = list(replies)
+                w = rpcsim.FakeWriter(lambda data: reader.feed_data(pending.pop(0)) if pending else reader.feed_eof())
+                c = rpcsim.async_client(reader, w, prov)
+                await asyncio.wait_for(c.bind(c15.contexts()), 2)
+                got["n"] = len(w.sent)
+                try:
+                    got["stub"] = bytes((await asyncio.wait_for(c.request(0, 0, marker), 2)).stub_data)
+                finally:
+                    got["wire"] = w.sent[got["n"]] if len(w.sent) > got["n"] else None
+            try:
+                asyncio.run(drive_async()) if use_async else drive_sync()
+            except Exception:  # noqa  (failing is the right outcome)
+                pass
+            ctx.count("downgraded_context:" + ("bind_ok" if got["n"] is not None else "bind_error"))
+            inp = {"scenario": "downgraded_context", "provider_script": [(hx(t), d) for t, d in sc], "async": use_async}
+            if got["stub"] is not None and evil in got["stub"]:
+                ctx.violation("a stub chosen by a party without the session key is returned after a handshake that negotiated no message protection", inp, hx(got["stub"])[:80], "error")
+                return
+            if got["wire"] is not None and marker in got["wire"]:
+                ctx.violation("after a handshake that negotiated no message protection the request goes out in clear", inp, hx(got["wire"])[:120], "an error")
+                return
+
+
 def real_ntlm(ctx):
     """the same alterations against a real NTLM security context pair from pyspnego (in-process)"""
     import os, tempfile, spnego
@@ -380,6 +436,12 @@ def replay(ctx, payload):
     if v.get("scenario") == "stripped_handshakes":
         c2 = type(ctx)(ctx.prop, "quick", ctx.seed)
         stripped_handshakes(c2)
+        for x in c2.violations[:3]:
+            print(" ", x["what"], x["input"], x["observed"][:60])
+        return not c2.violations
+    if v.get("scenario") == "downgraded_context":
+        c2 = type(ctx)(ctx.prop, "quick", ctx.seed)
+        downgraded_context(c2)
         for x in c2.violations[:3]:
             print(" ", x["what"], x["input"], x["observed"][:60])
         return not c2.violations
